@@ -91,11 +91,33 @@ def build(path, src='/repo/src'):
     with open(path + '.nums', 'w') as out:
         for v in sorted(nums):
             out.write('%d\n' % v)
+    # what is NEW with respect to the pinned tree (lists committed beside this script): the literals a change
+    # introduces are the values it treats specially -- the generators put them first, in every slot and dimension.
+    # On the unchanged tree both lists are empty.
+    base = os.path.join(os.path.dirname(os.path.abspath(__file__)), '..', 'baseline_dict')
+    try:
+        bw = set(json.loads(l) for l in open(base + '.txt'))
+        bn = set(int(l) for l in open(base + '.nums'))
+    except OSError:
+        bw, bn = None, None
+    with open(path + '.new', 'w') as out:
+        for w in sorted(words - bw if bw is not None else []):
+            out.write(json.dumps(w) + '\n')
+    with open(path + '.nums.new', 'w') as out:
+        for v in sorted(nums - bn if bn is not None else []):
+            out.write('%d\n' % v)
     return path
 
 
 if __name__ == '__main__':
     import sys
+    if len(sys.argv) > 2 and sys.argv[1] == '--baseline':
+        # regenerate the committed baseline lists from a source tree: srcdict.py --baseline /repo/src
+        p = build('/tmp/baseline_dict.tmp', sys.argv[2])
+        root = os.path.join(os.path.dirname(os.path.abspath(__file__)), '..')
+        os.replace(p, root + '/baseline_dict.txt')
+        os.replace(p + '.nums', root + '/baseline_dict.nums')
+        sys.exit(0)
     p = build(sys.argv[1] if len(sys.argv) > 1 else '/tmp/dict.txt')
     ws = [json.loads(l) for l in open(p)]
     print(len(ws), [w for w in ws if 'mdt' in w or 'lustre' in w or 'dev' in w][:20])
